@@ -237,7 +237,18 @@ def check_c06(tier, seed, replay=None, selftest=False):
 @reg("C11")
 def check_c11(tier, seed, replay=None, selftest=False):
     chk = _hash_check("C11", tier, seed, replay, 24, 400, 0.3, ", with refused submits (bad flags, in-flight context, continue-after-complete) injected at random points")
-    return chk if isinstance(chk, int) else chk.finish()
+    if isinstance(chk, int):
+        return chk
+    # the refusal matrix: {fresh, idle, in flight (body), in flight (padding block), complete} x {UPDATE, FIRST, LAST, ENTIRE, invalid}
+    rng = random.Random(seed * 977 + 11)
+    jobs = []
+    for alg in gen_hash.FAMS:
+        for fam in gen_hash.all_families(alg):
+            jobs.append(hash_job("c11-matrix-%s-%s" % (alg, fam), gen_hash.refuse_matrix(rng, alg, fam)))
+    outs = run_jobs(jobs, build.build_driver("hash", HASH_SRCS), "TraceHash")
+    nb, ne = collect(chk, outs, {"C11"})
+    chk.cov["refusal_matrix"] = {"behaviours": nb, "events": ne}
+    return chk.finish()
 
 
 # ------------------------------------------------------------------------------------------ AES
